@@ -37,7 +37,7 @@ Grow == /\ ph = "str" /\ Len(in) < MaxLen
 \* documents: bucketed so that the workers share them
 ToDocs == /\ ph = "str" /\ in = <<>> /\ \E b \in 0..15 : ph' = "doc" /\ cs' = <<b>> /\ UNCHANGED in
 EmitDoc == /\ ph = "doc" /\ Len(cs) = 1
-           /\ \E i \in {j \in 1..Len(DocSeq) : j % 16 = cs[1]}, lay \in {"c", "i"} :
+           /\ \E i \in {j \in 1..Len(DocSeq) : j % 16 = cs[1]}, lay \in Layouts :
                  cs' = <<cs[1], i, lay>> /\ PrintT(ToJson(DocCase(DocSeq[i], lay)))
            /\ UNCHANGED <<in, ph>>
 Next == Grow \/ ToDocs \/ EmitDoc
